@@ -22,6 +22,18 @@ type VerifC19Call struct {
 	Start, End     bool
 	Skip           int
 	Data           []byte
+
+	// Input = true: not a ReassembledSG call but the INPUT side, one record per
+	// AssembleWithContext call (gopacket calls the stream's Accept exactly once per packet,
+	// tcpassembly.go:669, before it looks at the packet): what the assembler reads of the segment
+	// (Seq, flags, Data = payload), the half connection's nextSeq as the assembler passes it,
+	// what fq's own Accept answered and the value of *start afterwards.
+	Input              bool
+	Seq                uint32
+	SYN, FIN, RST, ACK bool
+	NextSeq            int64
+	Accepted           bool
+	StartAfter         bool
 }
 
 type verifC19Factory struct {
@@ -46,6 +58,15 @@ func (s *verifC19Stream) ReassembledSG(sg reassembly.ScatterGather, ac reassembl
 	data := append([]byte(nil), sg.Fetch(length)...)
 	s.rec(VerifC19Call{Conn: s.idx, ServerToClient: dir == reassembly.TCPDirServerToClient, Start: start, End: end, Skip: skip, Data: data})
 	s.TCPConnection.ReassembledSG(sg, ac)
+}
+
+// Accept forwards to fq's own Accept and records the packet together with the answer.
+func (s *verifC19Stream) Accept(tcp *layers.TCP, ci gopacket.CaptureInfo, dir reassembly.TCPFlowDirection, nextSeq reassembly.Sequence, start *bool, ac reassembly.AssemblerContext) bool {
+	ok := s.TCPConnection.Accept(tcp, ci, dir, nextSeq, start, ac)
+	s.rec(VerifC19Call{Input: true, Conn: s.idx, ServerToClient: dir == reassembly.TCPDirServerToClient,
+		Seq: tcp.Seq, SYN: tcp.SYN, FIN: tcp.FIN, RST: tcp.RST, ACK: tcp.ACK, NextSeq: int64(nextSeq),
+		Accepted: ok, StartAfter: *start, Data: append([]byte(nil), tcp.Payload...)})
+	return ok
 }
 
 // VerifC19NewTraced is New with the recording factory in front of the Decoder's own.
